@@ -31,17 +31,17 @@ def ev_calls(oc, name):
 
 
 def r1_login(ctx, prog):
-    r = ctx.rule('C03.R1', 'the PIN check is reached only when nobody is logged in; success iff the check succeeds', floor=20, engine='E1+E3 finite-domain')
+    r = ctx.rule('C03.R1', 'the PIN check is reached only when nobody is logged in; success iff the check succeeds; a failing call leaves nobody logged in', floor=40, engine='E1+E3 finite-domain')
     for fname, meth, other in (('Token::loginSO', 'loginSO', 'User'), ('Token::loginUser', 'loginUser', 'SO')):
         f = prog.fn(fname)
         ctx.analysed(f)
-        for d in product({'so': [0, 1], 'user': [0, 1], 'blob': [0, 16], 'pinok': [0, 1]}):
+        for d in product({'so': [0, 1], 'user': [0, 1], 'blob': [0, 16], 'pinok': [0, 1], 'flags': [1, 0]}):
             cenv = {'sdm': 1, 'isSOLoggedIn(sdm)': d['so'], 'isUserLoggedIn(sdm)': d['user'], re.compile(r'size\(get(User|SO)PINBlob\(sdm\)\)'): d['blob'],
-                    re.compile(r'%s@\d+\(sdm,\w+\)' % meth): d['pinok'], re.compile(r'getTokenFlags@\d+\(.*\)'): 1}
+                    re.compile(r'%s@\d+\(sdm,\w+\)' % meth): d['pinok'], re.compile(r'getTokenFlags@\d+\(.*\)'): d['flags']}
             o = outcomes(f, prog, cenv, record={'loginSO', 'loginUser', 'logout', 'setSOPIN', 'setUserPIN'})
             r.paths += len(o.outcomes)
             allowed = not d['so'] and not d['user'] and (meth == 'loginSO' or d['blob'] > 0)
-            site = '%s so=%d user=%d userpin=%s pincheck=%d' % (meth, d['so'], d['user'], 'set' if d['blob'] else 'unset', d['pinok'])
+            site = '%s so=%d user=%d userpin=%s pincheck=%d%s' % (meth, d['so'], d['user'], 'set' if d['blob'] else 'unset', d['pinok'], '' if d['flags'] else ' flags-unreadable')
             bad = None
             for oc in o.outcomes:
                 chk = ev_calls(oc, meth)
@@ -50,7 +50,11 @@ def r1_login(ctx, prog):
                 elif not allowed and may_succeed(oc):
                     bad = ('the call can succeed although it must be refused', oc)
                 elif allowed and d['pinok'] and not may_succeed(oc):
-                    pass      # stricter than required (e.g. flags unreadable): not a violation
+                    # stricter than required (e.g. flags unreadable) is not a violation by itself, but a call that fails must not leave the login behind
+                    evs = oc['events']
+                    i = max([k for k, e in enumerate(evs) if e[0] == 'call' and e[1] == meth] or [-1])
+                    if i >= 0 and not any(e[0] == 'call' and e[1] == 'logout' for e in evs[i + 1:]):
+                        bad = ('the PIN check succeeded (the token is now logged in) and the call then fails without logging out again: a refused C_Login leaves the %s logged in' % ('SO' if meth == 'loginSO' else 'user'), oc)
                 elif allowed and not d['pinok'] and may_succeed(oc):
                     bad = ('the call succeeds although the PIN check failed', oc)
                 elif allowed and may_succeed(oc) and not chk:
